@@ -527,6 +527,9 @@ def r2_thresholds(ctx):
         for m in (3, 5, 7, 9):
             lo = Run(ctx, q, THETA[m] * (1 - EPS))
             hi = Run(ctx, q, THETA[m] * (1 + EPS))
+            if _aborted(ctx, f"{q}: a norm estimate just below theta_{m} (Al-Mohy & Higham), with ell = 0, uses the order-{m} Pade table", fn, lo.ret) \
+                    or _aborted(ctx, f"{q}: a norm estimate just above theta_{m} does not use the order-{m} table", fn, hi.ret):
+                continue
             if lo.order is None or hi.order is None or isinstance(lo.ret, Raised) or isinstance(hi.ret, Raised):
                 ctx.error(f"{q}: regime theta_{m}", fn, f"could not evaluate: {lo.ret!r} / {hi.ret!r}"[:300])
                 continue
@@ -561,11 +564,15 @@ def r2_thresholds(ctx):
                 ("||A^8||^(1/8) large, d4 and d6 just below theta_7: orders 7 and 9 (bounded by d6, d8) are not used",
                  {"d4": mid, "d6": mid, "d8": Fraction(10), "d10": mid}, 13)):
             r = Run(ctx, q, dvals)
+            if _aborted(ctx, f"{q}: {label}", fn, r.ret):
+                continue
             verdict(ctx, r.order == want_order, f"{q}: {label}", r.pq.node if r.pq is not None else fn,
                     {"order used": r.order, "expected": want_order}, [r.ret])
         # order 13: scaling power
         r = Run(ctx, q, Fraction(10))
         tc = r.table_call()
+        if _aborted(ctx, f"{q}: a norm estimate above theta_9 uses the scaled order-13 table", fn, r.ret):
+            continue
         ok = r.order == 13 and tc is not None
         ctx.check(ok, f"{q}: a norm estimate above theta_9 uses the scaled order-13 table", r.pq.node if r.pq is not None else fn,
                   None if ok else {"order used": r.order})
@@ -664,7 +671,9 @@ def r3_squaring(ctx):
     r = Run(ctx, "expmint", Fraction(10), geti2=True)
     tc = r.table_call()
     loops = r.it.loops
-    if len(loops) != 1 or tc is None or not isinstance(r.ret, tuple) or len(r.ret) != 3:
+    if _aborted(ctx, "expmint: the order-13 route returns E, I, I2", fn, r.ret):
+        pass
+    elif len(loops) != 1 or tc is None or not isinstance(r.ret, tuple) or len(r.ret) != 3:
         ctx.error("expmint: order-13 route", fn, f"expected one squaring loop and (E, I, I2): loops={len(loops)} ret={r.ret!r}"[:300])
     else:
         lp = loops[0]
@@ -713,6 +722,8 @@ def r3_squaring(ctx):
         for geti2 in (True, False):
             r = Run(ctx, "expmint", THETA[m] * (1 - EPS), geti2=geti2)
             tc = r.table_call()
+            if _aborted(ctx, f"expmint (order {m}, geti2 {'true' if geti2 else 'false'}) returns E, I" + (", I2" if geti2 else ""), fn, r.ret):
+                continue
             if tc is None or not isinstance(r.ret, tuple):
                 ctx.error(f"expmint: order-{m} route", fn, f"could not evaluate: {r.ret!r}"[:300])
                 continue
@@ -737,6 +748,8 @@ def r3_squaring(ctx):
         it = Interp(ctx, EXPM, hook=scalar_hook(), oracle=call_oracle({"isspmatrix": sparse}))
         ret = it.call("_solve_P_Q_2", [P, Q], {"structure": structure})
         leaf = _last(it.calls, *LEAF_SOLVES)
+        if _aborted(ctx, f"_solve_P_Q_2 solves Q X = P ({label} matrices: {leafname}(Q, P))", sp, ret):
+            continue
         ok = isinstance(ret, F.Rat) and ret.equals(P / Q) and leaf is not None and leaf.name == leafname
         verdict(ctx, ok, f"_solve_P_Q_2 solves Q X = P ({label} matrices: {leafname}(Q, P))", leaf.node if leaf is not None else sp,
                 repr(ret)[:200], [ret])
@@ -745,6 +758,8 @@ def r3_squaring(ctx):
     for m in (3, 5, 7, 9):
         r = Run(ctx, "_expm_SS", THETA[m] * (1 - EPS))
         tc = r.table_call()
+        if _aborted(ctx, f"_expm_SS (order {m}): returns solve(V-U, V+U)", fn, r.ret):
+            continue
         if tc is None:
             ctx.error(f"_expm_SS: order-{m} route", fn, f"could not evaluate: {r.ret!r}"[:300])
             continue
@@ -753,7 +768,9 @@ def r3_squaring(ctx):
         verdict(ctx, ok, f"_expm_SS (order {m}): returns solve(V-U, V+U)", tc.node, repr(r.ret)[:300], [r.ret, U, V])
     r = Run(ctx, "_expm_SS", Fraction(10))
     tc = r.table_call()
-    if len(r.it.loops) != 1 or tc is None:
+    if _aborted(ctx, "_expm_SS: the order-13 route returns exp(M)", fn, r.ret):
+        pass
+    elif len(r.it.loops) != 1 or tc is None:
         ctx.error("_expm_SS: order-13 route", fn, f"expected one squaring loop: {len(r.it.loops)}")
     else:
         lp = r.it.loops[0]
